@@ -17,11 +17,11 @@ import (
 )
 
 type c05Scn struct {
-	Monitor bool    `json:"monitor,omitempty"`
-	N      int      `json:"n"`
-	Action string   `json:"action"`
-	Prefix []int    `json:"choices"`
-	Devs   []string `json:"deviations,omitempty"`
+	Monitor bool     `json:"monitor,omitempty"`
+	N       int      `json:"n"`
+	Action  string   `json:"action"`
+	Prefix  []int    `json:"choices"`
+	Devs    []string `json:"deviations,omitempty"`
 }
 
 const (
@@ -50,7 +50,7 @@ var c05Actions = []string{
 	"none",
 	"partition-0|rest-4s", "partition-0|rest-10s", "partition-last|rest-10s", "oneway-0->1-10s",
 	"crash-last", "crash-0",
-	"restart-last-quick", "restart-last-after-detection", "restart-last-remembered-higher",
+	"restart-last-quick", "restart-last-after-detection", "restart-last-remembered-higher", "restart-remembered-much-higher-then-update",
 	"leave-last", "leave-last-then-shutdown", "leave-during-partition",
 	"update-1", "update-1-during-partition",
 	"false-accusation-of-1",
@@ -117,6 +117,25 @@ func runC05(t *testing.T, s c05Scn) (x nExec) {
 			c.at(t3, "crash", func() { c.crash(last) })
 			c.at(t3+300*time.Millisecond, "restart", func() { c.restart(last); latestMeta[last] = fmt.Sprintf("meta-%d-g1", last) })
 			rejoin(last, t3+320*time.Millisecond)
+		case "restart-remembered-much-higher-then-update":
+			// four refuted false alarms (incarnation 5), restart at 1, re-join, then the owner updates its metadata
+			for k := 0; k < 4; k++ {
+				k := k
+				c.at(time.Duration(400+600*k)*time.Millisecond, "false-alarm", func() {
+					if r := findRec(c.nodes[0].M.VSnapshot(), nodeName(last)); r != nil {
+						sm, _ := ml.VEncode(ml.VSuspectMsg, &ml.VSuspect{Incarnation: r.Incarnation, Node: nodeName(last), From: "somebody"}, false)
+						c.nodes[0].T.Deliver(sm, simAddr(nodeAddr(1)))
+					}
+				})
+			}
+			c.at(t3, "crash", func() { c.crash(last) })
+			c.at(t3+300*time.Millisecond, "restart", func() { c.restart(last); latestMeta[last] = fmt.Sprintf("meta-%d-g1", last) })
+			rejoin(last, t3+320*time.Millisecond)
+			c.at(t3+4*time.Second, "update", func() {
+				latestMeta[last] = "meta-last-updated"
+				c.nodes[last].D.SetMeta([]byte("meta-last-updated"))
+				go func() { _ = c.nodes[last].M.UpdateNode(2 * time.Second) }()
+			})
 		case "leave-last":
 			c.at(t3, "leave", func() { c.nodes[last].left = true; go func() { _ = c.nodes[last].M.Leave(2 * time.Second) }() })
 		case "leave-last-then-shutdown":
@@ -322,6 +341,7 @@ func TestC05(t *testing.T) {
 				return runC05(t, s2)
 			}, func(x nExec) {
 				execs++
+				rep.AddExtra("execs_"+act, 1)
 				rep.Transitions += len(x.Pts)
 				digests[x.Digest] = true
 				if p, ok := x.Extra["precondition"].(bool); ok && !p {
